@@ -1,6 +1,6 @@
 (* Css/Properties.v — property theorems of C34 only; proofs live in Proofs.v. *)
 From Common Require Import Base.
-From Css Require Import Model Proofs.
+From Css Require Import Model Proofs Tokens.
 Open Scope N_scope.
 
 (* The property at full strength: minifying never changes the normalised token sequence. *)
@@ -18,6 +18,25 @@ Proof. exact statement_refuted. Qed.
 Theorem C34_essential_bytes_partial :
   forall s, ends_in_string s = false -> ess (minify_tagged s) = essential s.
 Proof. exact essential_bytes. Qed.
+
+(* For every input that does not end inside an unclosed string: the byte-level normal form of the output
+   equals the byte-level normal form of the stylesheet with its comments removed.  [decomment] only strips
+   comments and writes outside-string whitespace as a space; [snorm] keeps every byte and keeps a separator
+   exactly between two bytes of which the first is not one of { } ; , > : and the second not one of
+   { } ; , >, merges semicolons and drops them before '}'.  So MinifyCSS never drops a separator that
+   stands between two such bytes, never invents one, and never drops a semicolon that is not redundant. *)
+Theorem C34_separators_partial :
+  forall s, ends_in_string s = false -> snorm (minify_tagged s) = snorm (decomment s).
+Proof. exact separators_kept. Qed.
+
+Example C34_separators_nonvacuous :
+  (* a; ;b /**/ c /**/{ ;};  *)
+  let s := [97;59;32;59;98;32;47;42;42;47;32;99;32;47;42;42;47;123;32;59;125;59;32] in
+  ends_in_string s = false /\ minify_css s = [97;59;59;98;32;32;99;32;123;125;59] /\
+  map snd (decomment s) = [97;59;32;59;98;32;32;99;32;123;32;59;125;59;32] /\
+  map snd (snorm (decomment s)) = [97;59;98;32;99;123;125;59] /\
+  snorm (minify_tagged s) = snorm (decomment s).
+Proof. vm_compute. repeat split; congruence. Qed.
 
 Example C34_witness_comment :
   let s := [97;47;42;42;47;98;123;125] in        (* a/**/b{} *)
